@@ -256,3 +256,888 @@ Theorem csv_round_trip_lf : forall d rows, delim_ok d = true ->
 Proof.
   intros d rows Hd H. apply csv_round_trip; [exact Hd|right; reflexivity|apply rows_ok_lf; exact H].
 Qed.
+
+(* ------------------------------------------------------------------------------------------ *)
+(* 2. CsvfileWriter: layout *)
+
+Lemma text_eqb_eq : forall a b, text_eqb a b = true -> a = b.
+Proof.
+  induction a as [|x a IH]; destruct b as [|y b]; simpl; intros H; try discriminate; [reflexivity|].
+  apply andb_prop in H. destruct H as [H1 H2]. apply N.eqb_eq in H1. subst y. f_equal. apply IH. exact H2.
+Qed.
+Lemma text_eqb_refl : forall a, text_eqb a a = true.
+Proof. induction a as [|x a IH]; simpl; [reflexivity|]. rewrite N.eqb_refl, IH. reflexivity. Qed.
+Lemma text_eqb_neq : forall a b, text_eqb a b = false -> a <> b.
+Proof. intros a b H E. subst b. rewrite text_eqb_refl in H. discriminate. Qed.
+Lemma text_eqb_sym : forall a b, text_eqb a b = text_eqb b a.
+Proof.
+  intros a b. destruct (text_eqb a b) eqn:E1.
+  - apply text_eqb_eq in E1. subst b. symmetry. apply text_eqb_refl.
+  - destruct (text_eqb b a) eqn:E2; [|reflexivity]. apply text_eqb_eq in E2. subst b.
+    rewrite text_eqb_refl in E1. discriminate.
+Qed.
+
+Lemma pairs_eqb_eq : forall a b, pairs_eqb a b = true -> a = b.
+Proof.
+  induction a as [|[x1 x2] a IH]; destruct b as [|[y1 y2] b]; simpl; intros H; try discriminate; [reflexivity|].
+  apply andb_prop in H. destruct H as [H12 H3]. apply andb_prop in H12. destruct H12 as [H1 H2].
+  apply text_eqb_eq in H1. apply text_eqb_eq in H2. subst. f_equal. apply IH. exact H3.
+Qed.
+Lemma pairs_eqb_refl : forall a, pairs_eqb a a = true.
+Proof. induction a as [|[x1 x2] a IH]; simpl; [reflexivity|]. rewrite !text_eqb_refl, IH. reflexivity. Qed.
+Lemma desc_eqb_eq : forall a b : desc, desc_eqb a b = true -> a = b.
+Proof.
+  intros [a1 a2] [b1 b2] H. unfold desc_eqb in H. simpl in H. apply andb_prop in H. destruct H as [H1 H2].
+  apply text_eqb_eq in H1. apply pairs_eqb_eq in H2. subst. reflexivity.
+Qed.
+Lemma desc_eqb_refl : forall a : desc, desc_eqb a a = true.
+Proof. intros [a1 a2]. unfold desc_eqb. simpl. rewrite text_eqb_refl, pairs_eqb_refl. reflexivity. Qed.
+
+Lemma mem_In : forall k l, mem k l = true <-> In k l.
+Proof.
+  intros k l. unfold mem. rewrite existsb_exists. split.
+  - intros [x [Hin He]]. apply text_eqb_eq in He. subst x. exact Hin.
+  - intros H. exists k. split; [exact H|apply text_eqb_refl].
+Qed.
+Lemma mem_false : forall k l, mem k l = false <-> ~ In k l.
+Proof.
+  intros k l. split.
+  - intros H Hin. apply mem_In in Hin. rewrite Hin in H. discriminate.
+  - intros H. destruct (mem k l) eqn:E; [|reflexivity]. apply mem_In in E. contradiction.
+Qed.
+
+(* the dictionary built from (key, value) pairs has distinct keys, all taken from the pairs *)
+Lemma dedup_aux_spec : forall l seen,
+  NoDup (map i_key (dedup_aux seen l))
+  /\ (forall it, In it (dedup_aux seen l) -> In it l /\ ~ In (i_key it) seen).
+Proof.
+  induction l as [|it l IH]; intros seen; simpl.
+  - split; [constructor|intros it []].
+  - destruct (mem (i_key it) seen) eqn:E.
+    + destruct (IH seen) as [H1 H2]. split; [exact H1|]. intros x Hx. destruct (H2 x Hx) as [Ha Hb]. auto.
+    + destruct (IH (i_key it :: seen)) as [H1 H2]. split.
+      * simpl. constructor; [|exact H1]. intros Hin. apply in_map_iff in Hin. destruct Hin as [x [Hk Hx]].
+        destruct (H2 x Hx) as [_ Hb]. apply Hb. left. symmetry. exact Hk.
+      * intros x [Hx | Hx].
+        -- subst x. split; [left; reflexivity|]. apply mem_false. exact E.
+        -- destruct (H2 x Hx) as [Ha Hb]. split; [right; exact Ha|]. intros Hc. apply Hb. right. exact Hc.
+Qed.
+Lemma dedup_NoDup : forall l, NoDup (map i_key (dedup l)).
+Proof. intros l. apply (dedup_aux_spec l []). Qed.
+Lemma dedup_incl : forall l it, In it (dedup l) -> In it l.
+Proof. intros l it H. apply (dedup_aux_spec l []). exact H. Qed.
+
+Lemma find_item_In : forall k l it, find_item k l = Some it -> In it l /\ i_key it = k.
+Proof.
+  intros k l it H. unfold find_item in H. apply find_some in H. destruct H as [H1 H2].
+  split; [exact H1|apply text_eqb_eq; exact H2].
+Qed.
+
+Lemma asdict_NoDup : forall f e items, NoDup (map i_key (asdict f e items)).
+Proof. intros f e items. unfold asdict. destruct f as [[|k ks]|]; apply dedup_NoDup. Qed.
+Lemma asdict_incl : forall f e items it, In it (asdict f e items) -> In it items.
+Proof.
+  intros f e items it H. unfold asdict in H.
+  assert (Hfilter : In it (dedup (filter (fun it0 => negb (mem (i_key it0)
+            match e with Some l => l | None => [] end)) items)) -> In it items).
+  { intros H0. apply dedup_incl in H0. apply filter_In in H0. tauto. }
+  destruct f as [[|k ks]|]; try (apply Hfilter; exact H).
+  apply dedup_incl in H. apply in_flat_map in H. destruct H as [k' [_ Hk]].
+  destruct (find_item k' items) as [x|] eqn:Ef; [|destruct Hk].
+  destruct (mem k' match e with Some l => l | None => [] end); [destruct Hk|].
+  destruct Hk as [Hk|[]]. subst x. apply find_item_In in Ef. tauto.
+Qed.
+Lemma selected_NoDup : forall o r, NoDup (map i_key (selected o r)).
+Proof. intros. apply asdict_NoDup. Qed.
+Lemma selected_incl : forall o r it, In it (selected o r) -> In it (rec_items r).
+Proof. intros o r it. apply asdict_incl. Qed.
+
+Lemma find_item_NoDup : forall d it, NoDup (map i_key d) -> In it d -> find_item (i_key it) d = Some it.
+Proof.
+  induction d as [|x d IH]; intros it Hnd Hin; [destruct Hin|].
+  simpl in Hnd. inversion Hnd as [|k ks Hnotin Hnd']. subst.
+  unfold find_item. simpl. destruct Hin as [-> | Hin].
+  - rewrite text_eqb_refl. reflexivity.
+  - destruct (text_eqb (i_key x) (i_key it)) eqn:E.
+    + apply text_eqb_eq in E. exfalso. apply Hnotin. rewrite E. apply in_map. exact Hin.
+    + apply (IH it Hnd' Hin).
+Qed.
+
+(* DictWriter.writerow with the writer's own field names = the values in dictionary order *)
+Lemma dict_row_own_keys : forall d, NoDup (map i_key d) -> dict_row (map i_key d) d = Some (map cell_of d).
+Proof.
+  intros d Hnd. unfold dict_row.
+  assert (H1 : forallb (fun it => mem (i_key it) (map i_key d)) d = true).
+  { apply forallb_forall. intros it Hin. apply mem_In. apply in_map. exact Hin. }
+  rewrite H1. f_equal. rewrite map_map. apply map_ext_in. intros it Hin.
+  rewrite (find_item_NoDup d it Hnd Hin). reflexivity.
+Qed.
+
+Section Layout.
+Variable c : cfg.
+Variable o : opts.
+
+Definition st_inv (st : cstate) (rs : list rec) : Prop :=
+  match c_desc st with
+  | None => True
+  | Some d0 => forall r, In r rs -> desc_eqb d0 (rec_desc c r) = true -> c_names st = map i_key (selected o r)
+  end.
+
+Lemma keys_agree_tail : forall r rs, keys_agree c o (r :: rs) -> keys_agree c o rs.
+Proof. intros r rs H a b Ha Hb. apply H; right; assumption. Qed.
+
+Lemma csvw_run_layout : forall rs st, keys_agree c o rs -> st_inv st rs ->
+  csvw_run c o st rs = Some (layout_prev c o (c_desc st) rs).
+Proof.
+  induction rs as [|r rs IH]; intros st Hka Hinv; [reflexivity|].
+  pose proof (keys_agree_tail r rs Hka) as Hka'.
+  assert (Hnew : csvw_run c o {| c_desc := Some (rec_desc c r); c_names := map i_key (selected o r) |} rs
+                 = Some (layout_prev c o (Some (rec_desc c r)) rs)).
+  { rewrite (IH {| c_desc := Some (rec_desc c r); c_names := map i_key (selected o r) |} Hka'); [reflexivity|].
+    unfold st_inv. simpl. intros r' Hin He. apply Hka; [left; reflexivity|right; exact Hin|exact He]. }
+  simpl. unfold csvw_step.
+  destruct (c_desc st) as [d0|] eqn:Ed.
+  - destruct (desc_eqb d0 (rec_desc c r)) eqn:Ee; simpl.
+    + (* same descriptor: no header *)
+      assert (Hn : c_names st = map i_key (selected o r)).
+      { unfold st_inv in Hinv. rewrite Ed in Hinv. apply Hinv; [left; reflexivity|exact Ee]. }
+      rewrite Hn, (dict_row_own_keys _ (selected_NoDup o r)).
+      assert (Hst : csvw_run c o st rs = Some (layout_prev c o (Some (rec_desc c r)) rs)).
+      { rewrite (IH st Hka'); [rewrite Ed; apply desc_eqb_eq in Ee; subst d0; reflexivity|].
+        unfold st_inv in *. rewrite Ed in *. intros r' Hin He. apply Hinv; [right; exact Hin|exact He]. }
+      rewrite Hst. reflexivity.
+    + rewrite (dict_row_own_keys _ (selected_NoDup o r)). rewrite Hnew. reflexivity.
+  - simpl. rewrite (dict_row_own_keys _ (selected_NoDup o r)). rewrite Hnew. reflexivity.
+Qed.
+
+Theorem csv_layout : forall rs, keys_agree c o rs -> csvw_run c o cstate0 rs = Some (layout_prev c o None rs).
+Proof. intros rs H. apply (csvw_run_layout rs cstate0 H). exact I. Qed.
+
+Lemma group_runs_cons : forall r t, exists run more, group_runs c (r :: t) = (r :: run) :: more.
+Proof.
+  intros r t. simpl. destruct (group_runs c t) as [|[|r' run] more].
+  - exists [], []. reflexivity.
+  - exists [], []. reflexivity.
+  - destruct (desc_eqb (rec_desc c r) (rec_desc c r')).
+    + exists (r' :: run), more. reflexivity.
+    + exists [], ((r' :: run) :: more). reflexivity.
+Qed.
+
+Lemma group_runs_step : forall r t,
+  group_runs c (r :: t) =
+  match group_runs c t with
+  | (r' :: run) :: more =>
+      if desc_eqb (rec_desc c r) (rec_desc c r') then (r :: r' :: run) :: more else [r] :: (r' :: run) :: more
+  | _ => [[r]]
+  end.
+Proof. reflexivity. Qed.
+
+Lemma layout_runs_cons : forall t r,
+  layout_runs c o (r :: t) = header_of o r :: layout_prev c o (Some (rec_desc c r)) (r :: t).
+Proof.
+  induction t as [|r' t IH]; intros r.
+  - unfold layout_runs. simpl. rewrite desc_eqb_refl. reflexivity.
+  - specialize (IH r'). destruct (group_runs_cons r' t) as [run [more Hg]].
+    unfold layout_runs in *. rewrite (group_runs_step r (r' :: t)), Hg. rewrite Hg in IH.
+    simpl in IH. rewrite desc_eqb_refl in IH. simpl in IH. injection IH as IH.
+    simpl layout_prev. rewrite desc_eqb_refl.
+    destruct (desc_eqb (rec_desc c r) (rec_desc c r')) eqn:Ee.
+    + simpl. rewrite IH. reflexivity.
+    + simpl. rewrite IH. reflexivity.
+Qed.
+
+Theorem layout_prev_runs : forall rs, layout_prev c o None rs = layout_runs c o rs.
+Proof.
+  intros [|r t]; [reflexivity|]. rewrite layout_runs_cons. simpl. rewrite desc_eqb_refl. reflexivity.
+Qed.
+
+Theorem group_runs_spec : forall rs,
+  concat (group_runs c rs) = rs /\ Forall (run_uniform c) (group_runs c rs) /\ adjacent_differ c (group_runs c rs).
+Proof.
+  induction rs as [|r t IH]; [simpl; split; [reflexivity|split; [constructor|exact I]]|].
+  destruct IH as [Hc [Hu Ha]].
+  destruct t as [|r' t'].
+  - simpl. split; [reflexivity|]. split; [|split; exact I]. constructor; [simpl; constructor|constructor].
+  - destruct (group_runs_cons r' t') as [run [more Hg]].
+    rewrite (group_runs_step r (r' :: t')). rewrite Hg in *.
+    destruct (desc_eqb (rec_desc c r) (rec_desc c r')) eqn:Ee.
+    + inversion Hu as [|x xs Hu1 Hu2]. subst. simpl in Hc. injection Hc as Hc.
+      split; [|split].
+      * simpl. rewrite Hc. reflexivity.
+      * constructor; [|exact Hu2]. simpl. constructor; [exact Ee|].
+        simpl in Hu1. apply desc_eqb_eq in Ee. rewrite Ee. exact Hu1.
+      * apply desc_eqb_eq in Ee.
+        destruct more as [|[|r2 run2] more'].
+        -- simpl. auto.
+        -- simpl in Ha |- *. destruct Ha as [Ha1 Ha2]. split; [exact I|exact Ha2].
+        -- simpl in Ha |- *. destruct Ha as [Ha1 Ha2]. split; [rewrite Ee; exact Ha1|exact Ha2].
+    + split; [|split].
+      * simpl. simpl in Hc. rewrite Hc. reflexivity.
+      * constructor; [simpl; constructor|exact Hu].
+      * simpl. split; [exact Ee|]. exact Ha.
+Qed.
+
+End Layout.
+
+Theorem csv_parses_back : forall c o rs t term,
+  keys_agree c o rs -> resolve_term c (o_term o) = term -> term_ok term ->
+  rows_ok term (layout_runs c o rs) = true ->
+  csv_text c o rs = Some t -> csv_parse 44 t = layout_runs c o rs.
+Proof.
+  intros c o rs t term Hka Hterm Htok Hrows Ht. unfold csv_text in Ht.
+  rewrite (csv_layout c o rs Hka) in Ht. injection Ht as Ht. subst t. rewrite Hterm.
+  rewrite layout_prev_runs. apply csv_round_trip; [reflexivity|exact Htok|exact Hrows].
+Qed.
+
+(* ------------------------------------------------------------------------------------------ *)
+(* 3. LineWriter *)
+
+Lemma line_run_blocks : forall c o rs k,
+  line_run c o k rs = flat_map (fun p => line_block c o (fst p) (snd p)) (number_from (k + 1) rs).
+Proof.
+  intros c o. induction rs as [|r rs IH]; intros k; [reflexivity|].
+  simpl. rewrite IH. reflexivity.
+Qed.
+
+Lemma number_from_fst : forall rs k,
+  map fst (number_from (N.of_nat k) rs) = map N.of_nat (seq k (List.length rs)).
+Proof.
+  induction rs as [|r rs IH]; intros k; [reflexivity|].
+  simpl. f_equal. replace (N.of_nat k + 1) with (N.of_nat (S k)) by lia. apply IH.
+Qed.
+Lemma number_from_snd : forall rs k, map snd (number_from k rs) = rs.
+Proof. induction rs as [|r rs IH]; intros k; [reflexivity|]. simpl. rewrite IH. reflexivity. Qed.
+
+Lemma lf_count_app : forall a b, lf_count (a ++ b) = (lf_count a + lf_count b)%nat.
+Proof.
+  unfold lf_count. induction a as [|x a IH]; intros b; [reflexivity|].
+  simpl. destruct (x =? LF); rewrite IH; reflexivity.
+Qed.
+Lemma lf_count_repeat32 : forall n, lf_count (repeat 32 n) = O.
+Proof. induction n as [|n IH]; [reflexivity|]. simpl. exact IH. Qed.
+Lemma lf_count_digits : forall u, lf_count (uint_digits u) = O.
+Proof. induction u; simpl; try reflexivity; exact IHu. Qed.
+Lemma lf_count_dec : forall n, lf_count (dec n) = O.
+Proof. intros n. apply lf_count_digits. Qed.
+
+Lemma list_max_ge : forall l x, In x l -> (x <= list_max l)%nat.
+Proof.
+  induction l as [|y l IH]; intros x Hin; [destruct Hin|].
+  simpl. destruct Hin as [-> | Hin]; [lia|]. specialize (IH x Hin). lia.
+Qed.
+
+Lemma rjust_length : forall w s, (List.length s <= w)%nat -> List.length (rjust w s) = w.
+Proof. intros w s H. unfold rjust. rewrite app_length, repeat_length. lia. Qed.
+
+Section Line.
+Variable c : cfg.
+Hypothesis Hpre : lf_count (g_hdr_pre c) = O.
+Hypothesis Hsuf : lf_count (g_hdr_suf c) = 1%nat.
+Hypothesis Hsep : lf_count (g_line_sep c) = O.
+Hypothesis Hend : lf_count (g_line_end c) = 1%nat.
+Hypothesis Hmid : lf_count (g_vkey_mid c) = O.
+Hypothesis Hvend : lf_count (g_vkey_end c) = O.
+Hypothesis Hextra : (List.length (g_vkey_mid c) + List.length (g_vkey_end c) <= g_vwidth_extra c)%nat.
+
+Definition names_lf_free (d : list item) : Prop :=
+  Forall (fun it => lf_count (i_key it) = O /\ lf_count (i_type it) = O) d.
+
+Lemma line_of_count : forall v w it, lf_count (i_key it) = O -> lf_count (i_type it) = O ->
+  lf_count (line_of c v w it) = S (lf_count (value_text it)).
+Proof.
+  intros v w it Hk Ht. unfold line_of, rjust, vkey. rewrite !lf_count_app, lf_count_repeat32, Hsep, Hend.
+  destruct v; rewrite ?lf_count_app, ?Hk, ?Ht, ?Hmid, ?Hvend; lia.
+Qed.
+
+Lemma lines_count : forall v w d, names_lf_free d ->
+  lf_count (flat_map (line_of c v w) d)
+  = (List.length d + sum_nat (map (fun it => lf_count (value_text it)) d))%nat.
+Proof.
+  intros v w d H. induction H as [|it d [Hk Ht] Hd IH]; [reflexivity|].
+  simpl. rewrite lf_count_app, IH, (line_of_count v w it Hk Ht). lia.
+Qed.
+
+Theorem line_block_count : forall o n r, names_lf_free (selected o r) ->
+  lf_count (line_block c o n r)
+  = S (List.length (selected o r) + sum_nat (map (fun it => lf_count (value_text it)) (selected o r))).
+Proof.
+  intros o n r H. unfold line_block, block_header.
+  rewrite !lf_count_app, Hpre, Hsuf, lf_count_dec, (lines_count _ _ _ H). lia.
+Qed.
+
+Theorem line_block_one_line_per_field : forall o n r, names_lf_free (selected o r) ->
+  Forall (fun it => lf_count (value_text it) = O) (selected o r) ->
+  lf_count (line_block c o n r) = S (List.length (selected o r)).
+Proof.
+  intros o n r H Hv. rewrite (line_block_count o n r H).
+  assert (Hs : sum_nat (map (fun it => lf_count (value_text it)) (selected o r)) = O).
+  { induction Hv as [|it d Hit Hd IH]; [reflexivity|]. simpl. rewrite Hit. apply IH. inversion H; assumption. }
+  rewrite Hs. lia.
+Qed.
+
+Theorem line_alignment : forall v d it, In it d ->
+  List.length (rjust (line_width c v d) (vkey c v it)) = line_width c v d.
+Proof.
+  intros v d it Hin. apply rjust_length. unfold line_width, vkey. destruct v.
+  - assert (H : (List.length (i_key it ++ i_type it) <= list_max (map (fun it0 => List.length (i_key it0 ++ i_type it0)) d))%nat).
+    { apply list_max_ge. apply (in_map (fun it0 => List.length (i_key it0 ++ i_type it0))). exact Hin. }
+    rewrite !app_length in *. lia.
+  - apply list_max_ge. apply (in_map (fun it0 => List.length (i_key it0))). exact Hin.
+Qed.
+
+End Line.
+
+(* ------------------------------------------------------------------------------------------ *)
+(* 4. totality: every writer produces bytes when the record's text is encodable *)
+
+Lemma utf8_total : forall se s, forallb (cp_ok se) s = true -> exists b, utf8 se s = Some b.
+Proof.
+  intros se. induction s as [|x s IH]; intros H; [exists []; reflexivity|].
+  simpl in H. apply andb_prop in H. destruct H as [Hx Hs]. destruct (IH Hs) as [b Hb].
+  simpl. rewrite Hb.
+  assert (Hc : exists bx, utf8_cp se x = Some bx).
+  { unfold cp_ok in Hx. apply andb_prop in Hx. destruct Hx as [Hlt Hsur]. unfold utf8_cp.
+    destruct (x <? 128); [eexists; reflexivity|]. destruct (x <? 2048); [eexists; reflexivity|].
+    destruct (x <? 65536).
+    - destruct ((55296 <=? x) && (x <=? 57343)) eqn:Es; [|eexists; reflexivity].
+      simpl in Hsur. rewrite Hsur. eexists; reflexivity.
+    - rewrite Hlt. eexists; reflexivity. }
+  destruct Hc as [bx Hbx]. rewrite Hbx. eexists; reflexivity.
+Qed.
+
+Lemma forallb_app_intro : forall (f : N -> bool) a b, forallb f a = true -> forallb f b = true -> forallb f (a ++ b) = true.
+Proof. intros f a b Ha Hb. rewrite forallb_app, Ha, Hb. reflexivity. Qed.
+
+Lemma forallb_flat_map : forall (A : Type) (f : N -> bool) (g : A -> text) l,
+  (forall x, In x l -> forallb f (g x) = true) -> forallb f (flat_map g l) = true.
+Proof.
+  intros A f g. induction l as [|x l IH]; intros H; [reflexivity|].
+  simpl. apply forallb_app_intro; [apply H; left; reflexivity|apply IH; intros y Hy; apply H; right; exact Hy].
+Qed.
+
+Lemma forallb_join : forall (f : N -> bool) sep l,
+  forallb f sep = true -> (forall x, In x l -> forallb f x = true) -> forallb f (join sep l) = true.
+Proof.
+  intros f sep. induction l as [|x l IH]; intros Hs H; [reflexivity|].
+  destruct l as [|y l]; [simpl; apply H; left; reflexivity|].
+  change (join sep (x :: y :: l)) with (x ++ sep ++ join sep (y :: l)).
+  apply forallb_app_intro; [apply H; left; reflexivity|].
+  apply forallb_app_intro; [exact Hs|]. apply IH; [exact Hs|]. intros z Hz. apply H. right. exact Hz.
+Qed.
+
+Lemma forallb_cons_intro : forall (f : N -> bool) x l, f x = true -> forallb f l = true -> forallb f (x :: l) = true.
+Proof. intros f x l Hx Hl. simpl. rewrite Hx, Hl. reflexivity. Qed.
+
+Lemma cp_ok_ascii : forall se x, x <? 128 = true -> cp_ok se x = true.
+Proof.
+  intros se x H. apply N.ltb_lt in H. unfold cp_ok.
+  assert (H1 : x <? 1114112 = true) by (apply N.ltb_lt; lia).
+  assert (H2 : 55296 <=? x = false) by (apply N.leb_gt; lia).
+  rewrite H1, H2. reflexivity.
+Qed.
+
+Lemma write_cell_ok : forall se d term s, cp_ok se QUOTE = true ->
+  forallb (cp_ok se) s = true -> forallb (cp_ok se) (write_cell d term s) = true.
+Proof.
+  intros se d term s Hq Hs. unfold write_cell. destruct (existsb (needs_quote d term) s); [|exact Hs].
+  apply forallb_cons_intro; [exact Hq|]. apply forallb_app_intro; [|apply forallb_cons_intro; [exact Hq|reflexivity]].
+  apply forallb_flat_map. intros x Hx. rewrite forallb_forall in Hs. specialize (Hs x Hx).
+  unfold esc. destruct (x =? QUOTE).
+  - apply forallb_cons_intro; [exact Hq|]. apply forallb_cons_intro; [exact Hq|reflexivity].
+  - apply forallb_cons_intro; [exact Hs|reflexivity].
+Qed.
+
+Lemma csv_write_ok : forall se d term rows, cp_ok se d = true -> forallb (cp_ok se) term = true ->
+  forallb (forallb (forallb (cp_ok se))) rows = true -> forallb (cp_ok se) (csv_write d term rows) = true.
+Proof.
+  intros se d term rows Hd Ht Hrows. unfold csv_write. apply forallb_flat_map. intros r Hr.
+  rewrite forallb_forall in Hrows. specialize (Hrows r Hr).
+  assert (Hq : cp_ok se QUOTE = true) by (apply cp_ok_ascii; reflexivity).
+  assert (Hgen : forallb (cp_ok se) (join [d] (map (write_cell d term) r) ++ term) = true).
+  { apply forallb_app_intro; [|exact Ht]. apply forallb_join; [apply forallb_cons_intro; [exact Hd|reflexivity]|].
+    intros x Hx. apply in_map_iff in Hx. destruct Hx as [s [<- Hs]]. apply write_cell_ok; [exact Hq|].
+    rewrite forallb_forall in Hrows. apply Hrows. exact Hs. }
+  unfold write_row. destruct r as [|s [|s2 r']]; [exact Hgen| |destruct s; exact Hgen]. destruct s; [|exact Hgen].
+  apply forallb_app_intro; [|exact Ht]. apply forallb_cons_intro; [exact Hq|]. apply forallb_cons_intro; [exact Hq|reflexivity].
+Qed.
+
+Lemma rec_items_ok : forall se r it, rec_ok se r = true -> In it (rec_items r) -> item_ok se it = true.
+Proof.
+  intros se [p | n ms] it Hok Hin; simpl in *.
+  - unfold prec_ok in Hok. apply andb_prop in Hok. destruct Hok as [_ Hi].
+    rewrite forallb_forall in Hi. apply Hi. exact Hin.
+  - apply andb_prop in Hok. destruct Hok as [_ Hms]. apply dedup_incl in Hin. apply in_flat_map in Hin.
+    destruct Hin as [p [Hp Hit]]. rewrite forallb_forall in Hms. specialize (Hms p Hp).
+    unfold prec_ok in Hms. apply andb_prop in Hms. destruct Hms as [_ Hi].
+    rewrite forallb_forall in Hi. apply Hi. exact Hit.
+Qed.
+
+Lemma item_ok_parts : forall se it, item_ok se it = true ->
+  forallb (cp_ok se) (i_key it) = true /\ forallb (cp_ok se) (i_type it) = true
+  /\ forallb (cp_ok se) (value_text it) = true /\ forallb (cp_ok se) (cell_of it) = true
+  /\ forallb (cp_ok se) (i_repr it) = true.
+Proof.
+  intros se it H. unfold item_ok in H.
+  apply andb_prop in H. destruct H as [H H5]. apply andb_prop in H. destruct H as [H H4].
+  apply andb_prop in H. destruct H as [H H3]. apply andb_prop in H. destruct H as [H1 H2]. auto.
+Qed.
+
+Theorem csv_total : forall c o rs, keys_agree c o rs ->
+  forallb (rec_ok (g_csv_se c)) rs = true ->
+  forallb (cp_ok (g_csv_se c)) (resolve_term c (o_term o)) = true ->
+  exists b, csv_out c o rs = Some b.
+Proof.
+  intros c o rs Hka Hok Hterm. unfold csv_out, csv_text. rewrite (csv_layout c o rs Hka).
+  apply utf8_total. apply csv_write_ok; [apply cp_ok_ascii; reflexivity|exact Hterm|].
+  (* every row of the layout is made of keys and cells of selected items *)
+  assert (Hsel : forall r, In r rs -> forall it, In it (selected o r) -> item_ok (g_csv_se c) it = true).
+  { intros r Hr it Hit. rewrite forallb_forall in Hok. apply (rec_items_ok _ r it (Hok r Hr)).
+    apply (selected_incl o r it Hit). }
+  clear Hka Hok. generalize (@None desc). induction rs as [|r rs IH]; intros prev; [reflexivity|].
+  assert (Hh : forallb (forallb (cp_ok (g_csv_se c))) (header_of o r) = true).
+  { unfold header_of. apply forallb_forall. intros k Hk. apply in_map_iff in Hk. destruct Hk as [it [<- Hit]].
+    apply (item_ok_parts _ it (Hsel r (or_introl eq_refl) it Hit)). }
+  assert (Hv : forallb (forallb (cp_ok (g_csv_se c))) (value_row o r) = true).
+  { unfold value_row. apply forallb_forall. intros k Hk. apply in_map_iff in Hk. destruct Hk as [it [<- Hit]].
+    apply (item_ok_parts _ it (Hsel r (or_introl eq_refl) it Hit)). }
+  simpl. rewrite forallb_app. simpl. rewrite Hv.
+  rewrite (IH (fun r' Hr' => Hsel r' (or_intror Hr'))).
+  destruct prev as [d0|]; [destruct (desc_eqb d0 (rec_desc c r))|]; simpl; rewrite ?Hh; reflexivity.
+Qed.
+
+Lemma digits_ok : forall se u, forallb (cp_ok se) (uint_digits u) = true.
+Proof.
+  intros se. induction u; try reflexivity;
+    (apply forallb_cons_intro; [apply cp_ok_ascii; reflexivity|exact IHu]).
+Qed.
+Lemma repeat32_ok : forall se n, forallb (cp_ok se) (repeat 32 n) = true.
+Proof.
+  intros se. induction n as [|n IH]; [reflexivity|].
+  apply forallb_cons_intro; [apply cp_ok_ascii; reflexivity|exact IH].
+Qed.
+
+Theorem line_total : forall c o rs,
+  forallb (rec_ok (g_line_se c)) rs = true ->
+  forallb (cp_ok (g_line_se c)) (g_hdr_pre c ++ g_hdr_suf c ++ g_line_sep c ++ g_line_end c ++ g_vkey_mid c ++ g_vkey_end c) = true ->
+  exists b, line_out c o rs = Some b.
+Proof.
+  intros c o rs Hok Hc. unfold line_out, line_text. apply utf8_total.
+  rewrite !forallb_app in Hc.
+  apply andb_prop in Hc. destruct Hc as [Hpre Hc]. apply andb_prop in Hc. destruct Hc as [Hsuf Hc].
+  apply andb_prop in Hc. destruct Hc as [Hsep Hc]. apply andb_prop in Hc. destruct Hc as [Hend Hc].
+  apply andb_prop in Hc. destruct Hc as [Hmid Hvend].
+  generalize 0. induction rs as [|r rs IH]; intros k; [reflexivity|].
+  simpl in Hok. apply andb_prop in Hok. destruct Hok as [Hr Hrs].
+  simpl. apply forallb_app_intro; [|apply (IH Hrs)].
+  unfold line_block, block_header. repeat apply forallb_app_intro; try assumption; try apply digits_ok.
+  apply forallb_flat_map. intros it Hit.
+  pose proof (item_ok_parts _ it (rec_items_ok _ r it Hr (selected_incl o r it Hit))) as [Hk [Ht [Hv _]]].
+  unfold line_of, rjust, vkey. repeat apply forallb_app_intro; try assumption; try apply repeat32_ok.
+  destruct (o_verbose o); repeat apply forallb_app_intro; assumption.
+Qed.
+
+Ltac ascii_lit := repeat (apply forallb_cons_intro; [apply cp_ok_ascii; reflexivity|]); reflexivity.
+
+Theorem text_repr_total : forall c r,
+  rec_ok (g_text_se c) r = true -> forallb (cp_ok (g_text_se c)) (g_text_end c) = true ->
+  exists b, utf8 (g_text_se c) (rec_repr c r ++ g_text_end c) = Some b.
+Proof.
+  intros c r Hok Hend. apply utf8_total. apply forallb_app_intro; [|exact Hend].
+  assert (Hp : forall p, prec_ok (g_text_se c) p = true -> forallb (cp_ok (g_text_se c)) (plain_repr c p) = true).
+  { intros p Hp. unfold prec_ok in Hp. apply andb_prop in Hp. destruct Hp as [Hn Hi].
+    unfold plain_repr.
+    apply forallb_app_intro; [ascii_lit|]. apply forallb_app_intro; [exact Hn|].
+    apply forallb_app_intro; [ascii_lit|]. apply forallb_app_intro; [|ascii_lit].
+    apply forallb_join; [ascii_lit|].
+    intros x Hx. apply in_map_iff in Hx. destruct Hx as [it [<- Hit]].
+    unfold user_items in Hit. apply filter_In in Hit. destruct Hit as [Hit _].
+    rewrite forallb_forall in Hi. pose proof (item_ok_parts _ it (Hi it Hit)) as [Hk [_ [_ [_ Hr]]]].
+    apply forallb_app_intro; [exact Hk|]. apply forallb_app_intro; [ascii_lit|exact Hr]. }
+  destruct r as [p | n ms]; simpl in Hok; [apply Hp; exact Hok|].
+  apply andb_prop in Hok. destruct Hok as [Hn Hms]. unfold rec_repr.
+  apply forallb_app_intro; [ascii_lit|]. apply forallb_app_intro; [exact Hn|].
+  apply forallb_app_intro; [ascii_lit|]. apply forallb_app_intro; [|ascii_lit].
+  apply forallb_join; [ascii_lit|].
+  intros x Hx. apply in_map_iff in Hx. destruct Hx as [p [<- Hpin]]. apply Hp.
+  rewrite forallb_forall in Hms. apply Hms. exact Hpin.
+Qed.
+
+(* ------------------------------------------------------------------------------------------ *)
+(* 5. TextWriter: the template grammar *)
+
+Notation Lst acc items :=
+  {| t_mode := MLit; t_acc := acc; t_name := []; t_conv := None; t_items := items |}.
+
+Lemma eqb_false_of_negb_or : forall a b : bool, negb (a || b) = true -> a = false /\ b = false.
+Proof. intros [|] [|]; simpl; intros H; try discriminate; auto. Qed.
+
+(* a literal run (braces doubled) *)
+Lemma trun_literal : forall s acc items rest,
+  trun (Lst acc items) (flat_map esc_brace s ++ rest) = trun (Lst (rev s ++ acc) items) rest.
+Proof.
+  induction s as [|c s IH]; intros acc items rest; [reflexivity|].
+  simpl flat_map. unfold esc_brace at 1.
+  destruct (c =? LB) eqn:E1.
+  - apply N.eqb_eq in E1. subst c. simpl. unfold with_mode. simpl. rewrite IH, <- app_assoc. reflexivity.
+  - destruct (c =? RB) eqn:E2.
+    + apply N.eqb_eq in E2. subst c. simpl. unfold with_mode. simpl. rewrite IH, <- app_assoc. reflexivity.
+    + simpl. unfold tstep at 1. simpl. rewrite E1, E2. unfold with_mode. simpl.
+      change {| t_mode := MLit; t_acc := c :: acc; t_name := []; t_conv := None; t_items := items |}
+        with (Lst (c :: acc) items).
+      rewrite IH, <- app_assoc. reflexivity.
+Qed.
+
+Notation Nst acc items :=
+  {| t_mode := MName; t_acc := acc; t_name := []; t_conv := None; t_items := items |}.
+
+Lemma name_char_parts : forall c, name_char c = true ->
+  (c =? RB) = false /\ (c =? 58) = false /\ (c =? 33) = false /\ (c =? LB) = false /\ (c =? 91) = false /\ (c =? 46) = false.
+Proof.
+  intros c H. unfold name_char in H. rewrite negb_true_iff in H.
+  repeat (apply orb_false_iff in H; destruct H as [H ?]). auto 10.
+Qed.
+
+Lemma trun_name : forall s acc items rest, forallb name_char s = true ->
+  trun (Nst acc items) (s ++ rest) = trun (Nst (rev s ++ acc) items) rest.
+Proof.
+  induction s as [|c s IH]; intros acc items rest H; [reflexivity|].
+  simpl in H. apply andb_prop in H. destruct H as [Hc Hs].
+  destruct (name_char_parts c Hc) as [E1 [E2 [E3 [E4 [E5 E6]]]]].
+  simpl. unfold tstep at 1. simpl. unfold name_step. simpl. rewrite E1, E2, E3, E4, E5, E6. simpl.
+  unfold with_mode. simpl.
+  change {| t_mode := MName; t_acc := c :: acc; t_name := []; t_conv := None; t_items := items |}
+    with (Nst (c :: acc) items).
+  rewrite (IH _ _ _ Hs), <- app_assoc. reflexivity.
+Qed.
+
+Notation Sst acc name cv items :=
+  {| t_mode := MSpec; t_acc := acc; t_name := name; t_conv := cv; t_items := items |}.
+
+Lemma trun_spec : forall s acc name cv items rest, forallb spec_char s = true ->
+  trun (Sst acc name cv items) (s ++ rest) = trun (Sst (rev s ++ acc) name cv items) rest.
+Proof.
+  induction s as [|c s IH]; intros acc name cv items rest H; [reflexivity|].
+  simpl in H. apply andb_prop in H. destruct H as [Hc Hs].
+  unfold spec_char in Hc. rewrite negb_true_iff in Hc. apply orb_false_iff in Hc. destruct Hc as [E1 E2].
+  simpl. unfold tstep at 1. simpl. rewrite E1, E2. unfold with_mode. simpl.
+  change {| t_mode := MSpec; t_acc := c :: acc; t_name := name; t_conv := cv; t_items := items |}
+    with (Sst (c :: acc) name cv items).
+  rewrite (IH _ _ _ _ _ Hs), <- app_assoc. reflexivity.
+Qed.
+
+Lemma trun_cons : forall st c t, trun st (c :: t) = match tstep st c with Some st' => trun st' t | None => None end.
+Proof. reflexivity. Qed.
+
+Notation Ost acc items := {| t_mode := MOpen; t_acc := acc; t_name := []; t_conv := None; t_items := items |}.
+Notation Cst name items := {| t_mode := MConv; t_acc := []; t_name := name; t_conv := None; t_items := items |}.
+Notation Dst name cc items := {| t_mode := MConvDone; t_acc := []; t_name := name; t_conv := Some cc; t_items := items |}.
+
+Lemma tstep_L_lb : forall acc items, tstep (Lst acc items) LB = Some (Ost acc items).
+Proof. reflexivity. Qed.
+Lemma tstep_open_name : forall acc items c, name_char c = true ->
+  tstep (Ost acc items) c = Some (Nst [c] (push_lit acc items)).
+Proof.
+  intros acc items c H. destruct (name_char_parts c H) as [E1 [E2 [E3 [E4 [E5 E6]]]]].
+  unfold tstep, name_step, with_mode. simpl. rewrite E4, E1, E2, E3, E5, E6. reflexivity.
+Qed.
+Lemma tstep_name_rb : forall acc items, name_ok (rev acc) = true ->
+  tstep (Nst acc items) RB = Some (Lst [] (TField (rev acc) None [] :: items)).
+Proof. intros acc items H. unfold tstep, name_step, emit_field. simpl. rewrite H. reflexivity. Qed.
+Lemma tstep_name_colon : forall acc items, tstep (Nst acc items) 58 = Some (Sst [] (rev acc) None items).
+Proof. reflexivity. Qed.
+Lemma tstep_name_bang : forall acc items, tstep (Nst acc items) 33 = Some (Cst (rev acc) items).
+Proof. reflexivity. Qed.
+Lemma tstep_conv : forall name items cc, conv_ok (Some cc) = true ->
+  tstep (Cst name items) cc = Some (Dst name cc items).
+Proof. intros name items cc H. unfold tstep. simpl. simpl in H. rewrite H. reflexivity. Qed.
+Lemma tstep_convdone_rb : forall name cc items, name_ok name = true ->
+  tstep (Dst name cc items) RB = Some (Lst [] (TField name (Some cc) [] :: items)).
+Proof. intros name cc items H. unfold tstep, emit_field. simpl. rewrite H. reflexivity. Qed.
+Lemma tstep_convdone_colon : forall name cc items,
+  tstep (Dst name cc items) 58 = Some (Sst [] name (Some cc) items).
+Proof. reflexivity. Qed.
+Lemma tstep_spec_rb : forall acc name cv items, name_ok name = true ->
+  tstep (Sst acc name cv items) RB = Some (Lst [] (TField name cv (rev acc) :: items)).
+Proof. intros acc name cv items H. unfold tstep, emit_field. simpl. rewrite H. reflexivity. Qed.
+
+(* one replacement field, read in literal mode with a pending literal [acc] *)
+Lemma trun_field : forall n cv sp acc items rest, item_canon (TField n cv sp) = true ->
+  trun (Lst acc items) (unparse_item (TField n cv sp) ++ rest)
+  = trun (Lst [] (TField n cv sp :: push_lit acc items)) rest.
+Proof.
+  intros n cv sp acc items rest H. simpl in H.
+  apply andb_prop in H. destruct H as [H Hsp]. apply andb_prop in H. destruct H as [H Hcv].
+  apply andb_prop in H. destruct H as [Hok Hn].
+  destruct n as [|c n]; [discriminate|].
+  simpl in Hn. apply andb_prop in Hn. destruct Hn as [Hc Hn].
+  assert (Hname : rev (rev n ++ [c]) = c :: n) by (rewrite rev_app_distr, rev_involutive; reflexivity).
+  unfold unparse_item. rewrite <- !app_assoc. rewrite app_single, <- app_comm_cons.
+  rewrite trun_cons, tstep_L_lb, trun_cons, (tstep_open_name _ _ c Hc).
+  rewrite (trun_name n [c] _ _ Hn).
+  destruct cv as [cc|]; destruct sp as [|s0 sp].
+  - (* {n!c} *)
+    change ([33; cc] ++ [] ++ [RB] ++ rest) with (33 :: cc :: RB :: rest).
+    rewrite trun_cons, tstep_name_bang, Hname, trun_cons, (tstep_conv _ _ cc Hcv).
+    rewrite trun_cons, (tstep_convdone_rb _ _ _ Hok). reflexivity.
+  - (* {n!c:spec} *)
+    change ([33; cc] ++ (58 :: s0 :: sp) ++ [RB] ++ rest) with (33 :: cc :: 58 :: (s0 :: sp) ++ RB :: rest).
+    rewrite trun_cons, tstep_name_bang, Hname, trun_cons, (tstep_conv _ _ cc Hcv).
+    rewrite trun_cons, tstep_convdone_colon.
+    rewrite (trun_spec (s0 :: sp) [] _ _ _ _ Hsp).
+    rewrite trun_cons, (tstep_spec_rb _ _ _ _ Hok). rewrite app_nil_r, rev_involutive. reflexivity.
+  - (* {n} *)
+    change ([] ++ [] ++ [RB] ++ rest) with (RB :: rest).
+    rewrite trun_cons, tstep_name_rb; rewrite Hname; [reflexivity|exact Hok].
+  - (* {n:spec} *)
+    change ([] ++ (58 :: s0 :: sp) ++ [RB] ++ rest) with (58 :: (s0 :: sp) ++ RB :: rest).
+    rewrite trun_cons, tstep_name_colon, Hname.
+    rewrite (trun_spec (s0 :: sp) [] _ _ _ _ Hsp).
+    rewrite trun_cons, (tstep_spec_rb _ _ _ _ Hok). rewrite app_nil_r, rev_involutive. reflexivity.
+Qed.
+
+Lemma push_lit_rev_nonempty : forall (s : text) items, s <> [] -> push_lit (rev s) items = TLit s :: items.
+Proof.
+  intros s items H. unfold push_lit. destruct (rev s) eqn:Er.
+  - exfalso. apply H. apply (f_equal (@rev N)) in Er. rewrite rev_involutive in Er. exact Er.
+  - rewrite <- Er, rev_involutive. reflexivity.
+Qed.
+
+Lemma trun_items : forall l acc items, tpl_canon l = true ->
+  (acc <> [] -> match l with TLit _ :: _ => False | _ => True end) ->
+  exists acc' items', trun (Lst acc items) (flat_map unparse_item l) = Some (Lst acc' items')
+                      /\ rev (push_lit acc' items') = rev (push_lit acc items) ++ l.
+Proof.
+  induction l as [|it l IH]; intros acc items Hc Hacc.
+  - exists acc, items. split; [reflexivity|rewrite app_nil_r; reflexivity].
+  - simpl in Hc. apply andb_prop in Hc. destruct Hc as [Hc Hadj]. apply andb_prop in Hc. destruct Hc as [Hit Hl].
+    simpl flat_map. destruct it as [s | n cv sp].
+    + (* literal: no literal is pending *)
+      assert (Ha : acc = []). { destruct acc; [reflexivity|]. exfalso. apply Hacc. discriminate. }
+      subst acc. change (unparse_item (TLit s)) with (flat_map esc_brace s). rewrite trun_literal, app_nil_r.
+      destruct (IH (rev s) items Hl) as [acc' [items' [H1 H2]]].
+      { intros _. destruct l as [|[s2|] l']; try exact I. discriminate. }
+      exists acc', items'. split; [exact H1|]. rewrite H2.
+      simpl in Hit. destruct s as [|c s]; [discriminate|].
+      rewrite (push_lit_rev_nonempty (c :: s) items ltac:(discriminate)).
+      simpl. rewrite <- app_assoc. reflexivity.
+    + rewrite (trun_field n cv sp acc items _ Hit).
+      destruct (IH [] (TField n cv sp :: push_lit acc items) Hl) as [acc' [items' [H1 H2]]].
+      { intros H. exfalso. apply H. reflexivity. }
+      exists acc', items'. split; [exact H1|]. rewrite H2. simpl. rewrite <- app_assoc. reflexivity.
+Qed.
+
+Theorem parse_unparse : forall l, tpl_canon l = true -> parse_template (flat_map unparse_item l) = Some l.
+Proof.
+  intros l H. unfold parse_template.
+  destruct (trun_items l [] [] H) as [acc' [items' [H1 H2]]]; [intros Hn; exfalso; apply Hn; reflexivity|].
+  change tstate0 with (Lst [] []). rewrite H1. simpl. rewrite H2. reflexivity.
+Qed.
+
+(* rendering is the concatenation of the per-item renderings *)
+Lemma render_all_ok : forall items tbl l outs,
+  Forall2 (fun it out => render_item items tbl it = Ok out) l outs -> render items tbl l = Ok (concat outs).
+Proof.
+  intros items tbl l outs H. induction H as [|it out l outs Hit Hl IH]; [reflexivity|].
+  simpl. rewrite Hit, IH. reflexivity.
+Qed.
+
+(* ------------------------------------------------------------------------------------------ *)
+(* 6. normalize_fieldname *)
+
+Lemma In_N_range : forall len lo x, lo <= x -> x < lo + N.of_nat len -> In x (N_range lo len).
+Proof.
+  induction len as [|len IH]; intros lo x H1 H2; [simpl in H2; lia|].
+  simpl. destruct (N.eq_dec lo x) as [->|Hne]; [left; reflexivity|].
+  right. apply IH; lia.
+Qed.
+
+Section Normalize.
+Variable R : list text.
+Variable nc : ncfg.
+Variable isdec : N -> bool.
+Hypothesis HR : forallb starts_with_underscore R = true.
+Hypothesis Hsub : n_sub nc = [95].
+Hypothesis Hu : existsb (N.eqb 95) (n_chars nc) = false.
+Hypothesis Hpre : n_prefix nc = [120; 95].
+Hypothesis Hx : existsb (N.eqb 120) (n_chars nc) = false.
+Hypothesis Hdx : isdec 120 = false.
+
+Definition in_class (ch : N) : bool := existsb (N.eqb ch) (n_chars nc).
+Definition subst (s : text) : text := flat_map (fun ch => if in_class ch then n_sub nc else [ch]) s.
+Definition clean (s : text) : bool := forallb (fun ch => negb (in_class ch)) s.
+
+Lemma normalize_unfold : forall name,
+  normalize R nc isdec name =
+  if mem name R then name
+  else match subst name with
+       | [] => n_prefix nc ++ subst name
+       | ch :: _ => if (ch =? 95) || isdec ch then n_prefix nc ++ subst name else subst name
+       end.
+Proof. reflexivity. Qed.
+
+Lemma subst_clean : forall s, clean (subst s) = true.
+Proof.
+  induction s as [|ch s IH]; [reflexivity|].
+  unfold subst, clean in *. simpl. rewrite forallb_app, IH, andb_true_r.
+  destruct (in_class ch) eqn:E.
+  - rewrite Hsub. simpl. unfold in_class. rewrite Hu. reflexivity.
+  - simpl. rewrite E. reflexivity.
+Qed.
+Lemma subst_id : forall s, clean s = true -> subst s = s.
+Proof.
+  induction s as [|ch s IH]; intros H; [reflexivity|].
+  unfold clean in H. simpl in H. apply andb_prop in H. destruct H as [Hc Hs].
+  unfold subst. simpl. rewrite negb_true_iff in Hc. rewrite Hc. simpl. f_equal. apply IH. exact Hs.
+Qed.
+Lemma reserved_head : forall s, mem s R = true -> starts_with_underscore s = true.
+Proof. intros s H. apply mem_In in H. rewrite forallb_forall in HR. apply HR. exact H. Qed.
+Lemma not_reserved : forall ch s, ch <> 95 -> mem (ch :: s) R = false.
+Proof.
+  intros ch s H. destruct (mem (ch :: s) R) eqn:E; [|reflexivity].
+  apply reserved_head in E. simpl in E.
+  destruct ch as [|p]; [discriminate|]. exfalso. apply H.
+  repeat (destruct p as [p|p|]; try discriminate). reflexivity.
+Qed.
+
+Lemma prefixed_fixed : forall s, clean s = true -> normalize R nc isdec ([120; 95] ++ s) = [120; 95] ++ s.
+Proof.
+  intros s Hs. change ([120; 95] ++ s) with (120 :: 95 :: s). rewrite normalize_unfold. rewrite (not_reserved 120 (95 :: s)) by discriminate.
+  assert (Hc : clean (120 :: 95 :: s) = true).
+  { unfold clean. simpl. unfold in_class. rewrite Hx, Hu. exact Hs. }
+  rewrite (subst_id _ Hc). simpl. rewrite Hdx. reflexivity.
+Qed.
+
+Theorem normalize_idempotent : forall name,
+  normalize R nc isdec (normalize R nc isdec name) = normalize R nc isdec name.
+Proof.
+  intros name. rewrite (normalize_unfold name). destruct (mem name R) eqn:Em.
+  - rewrite normalize_unfold, Em. reflexivity.
+  - pose proof (subst_clean name) as Hc. rewrite Hpre.
+    destruct (subst name) as [|ch s] eqn:Es.
+    + apply (prefixed_fixed [] eq_refl).
+    + destruct ((ch =? 95) || isdec ch) eqn:Eh.
+      * apply (prefixed_fixed (ch :: s) Hc).
+      * apply orb_false_iff in Eh. destruct Eh as [E1 E2]. apply N.eqb_neq in E1.
+        rewrite normalize_unfold, (not_reserved ch s E1), (subst_id _ Hc).
+        apply N.eqb_neq in E1. rewrite E1, E2. reflexivity.
+Qed.
+
+Theorem normalize_first_char : forall name, mem name R = false ->
+  exists ch s, normalize R nc isdec name = ch :: s /\ ch <> 95 /\ isdec ch = false /\ clean (ch :: s) = true.
+Proof.
+  intros name Em. rewrite normalize_unfold, Em, Hpre. pose proof (subst_clean name) as Hc.
+  assert (Hp : forall s, clean s = true -> clean ([120; 95] ++ s) = true).
+  { intros s Hs. unfold clean. simpl. unfold in_class. rewrite Hx, Hu. exact Hs. }
+  destruct (subst name) as [|ch s] eqn:Es.
+  - exists 120, [95]. repeat split; [discriminate|exact Hdx|apply (Hp [] eq_refl)].
+  - destruct ((ch =? 95) || isdec ch) eqn:Eh.
+    + exists 120, (95 :: ch :: s). repeat split; [discriminate|exact Hdx|apply (Hp _ Hc)].
+    + apply orb_false_iff in Eh. destruct Eh as [E1 E2]. apply N.eqb_neq in E1.
+      exists ch, s. repeat split; assumption.
+Qed.
+
+Hypothesis Hdigits : forallb isdec (N_range 48 10) = true.
+
+Lemma digit_isdec : forall ch, is_digit ch = true -> isdec ch = true.
+Proof.
+  intros ch H. unfold is_digit in H. apply andb_prop in H. destruct H as [H1 H2].
+  apply N.leb_le in H1, H2. rewrite forallb_forall in Hdigits. apply Hdigits.
+  apply In_N_range; simpl; lia.
+Qed.
+
+Theorem normalize_valid_on_simple_names : forall name,
+  forallb (simple_name_char nc) name = true -> mem name R = false ->
+  valid_field_name (normalize R nc isdec name) = true.
+Proof.
+  intros name Hs Em. rewrite normalize_unfold, Em, Hpre.
+  assert (Hw : forallb is_word (subst name) = true).
+  { clear Em. induction name as [|ch s IH]; [reflexivity|].
+    simpl in Hs. apply andb_prop in Hs. destruct Hs as [Hc Hs].
+    unfold subst in *. simpl. rewrite forallb_app, (IH Hs), andb_true_r.
+    unfold simple_name_char in Hc. fold (in_class ch) in Hc. destruct (in_class ch).
+    - rewrite Hsub. reflexivity.
+    - rewrite orb_false_r in Hc. simpl. rewrite Hc. reflexivity. }
+  destruct (subst name) as [|ch s] eqn:Es; [reflexivity|].
+  destruct ((ch =? 95) || isdec ch) eqn:Eh.
+  - change (valid_field_name ([120; 95] ++ ch :: s)) with (is_alpha 120 && (is_word 95 && forallb is_word (ch :: s))).
+    rewrite Hw. reflexivity.
+  - apply orb_false_iff in Eh. destruct Eh as [E1 E2].
+    simpl in Hw. apply andb_prop in Hw. destruct Hw as [Hch Hrest].
+    unfold valid_field_name. rewrite E1. unfold valid_body. rewrite Hrest, andb_true_r.
+    unfold is_word in Hch. rewrite E1, orb_false_r in Hch. apply orb_prop in Hch.
+    destruct Hch as [Ha | Hd]; [exact Ha|]. rewrite (digit_isdec ch Hd) in E2. discriminate.
+Qed.
+
+(* ---- reading back *)
+Hypothesis Hclass : forallb (fun ch => negb (is_word ch)) (n_chars nc) = true.
+Hypothesis Hletters : forallb (fun ch => negb (isdec ch)) (N_range 65 26 ++ N_range 97 26) = true.
+
+Lemma alpha_not_dec : forall ch, is_alpha ch = true -> isdec ch = false.
+Proof.
+  intros ch H. rewrite forallb_forall in Hletters. apply negb_true_iff. apply Hletters.
+  apply in_or_app. unfold is_alpha in H. apply orb_prop in H. destruct H as [H | H];
+    apply andb_prop in H; destruct H as [H1 H2]; apply N.leb_le in H1, H2;
+    [left|right]; apply In_N_range; simpl; lia.
+Qed.
+Lemma word_not_in_class : forall ch, is_word ch = true -> in_class ch = false.
+Proof.
+  intros ch H. unfold in_class. destruct (existsb (N.eqb ch) (n_chars nc)) eqn:E; [|reflexivity].
+  apply existsb_exists in E. destruct E as [y [Hy Hey]]. apply N.eqb_eq in Hey. subst y.
+  rewrite forallb_forall in Hclass. specialize (Hclass ch Hy). rewrite H in Hclass. discriminate.
+Qed.
+
+Lemma normalize_valid_id : forall n, valid_body n = true -> normalize R nc isdec n = n.
+Proof.
+  intros n H. destruct n as [|ch s]; [discriminate|].
+  simpl in H. apply andb_prop in H. destruct H as [Ha Hs].
+  assert (Hne : ch <> 95). { intros ->. discriminate. }
+  assert (Hc : clean (ch :: s) = true).
+  { unfold clean. simpl. rewrite (word_not_in_class ch) by (unfold is_word; rewrite Ha; reflexivity). simpl.
+    apply forallb_forall. intros y Hy. rewrite forallb_forall in Hs. rewrite (word_not_in_class y (Hs y Hy)). reflexivity. }
+  rewrite normalize_unfold, (not_reserved ch s Hne), (subst_id _ Hc).
+  apply N.eqb_neq in Hne. rewrite Hne, (alpha_not_dec ch Ha). reflexivity.
+Qed.
+
+Lemma zip_lookup_absent : forall names cells k acc, ~ In k names -> zip_lookup k names cells acc = acc.
+Proof.
+  induction names as [|n ns IH]; intros cells k acc H; [reflexivity|].
+  destruct cells as [|v vs]; [reflexivity|]. simpl.
+  destruct (text_eqb n k) eqn:E.
+  - apply text_eqb_eq in E. exfalso. apply H. left. exact E.
+  - apply IH. intros Hin. apply H. right. exact Hin.
+Qed.
+
+Lemma zip_rows : forall names cells, NoDup names -> List.length cells = List.length names ->
+  map (fun k => (k, zip_lookup k names cells None)) names = combine names (map Some cells).
+Proof.
+  induction names as [|n ns IH]; intros cells Hnd Hlen; [reflexivity|].
+  destruct cells as [|v vs]; [discriminate|]. inversion Hnd as [|x xs Hnotin Hnd']. subst.
+  simpl. rewrite text_eqb_refl. rewrite (zip_lookup_absent ns vs n (Some v) Hnotin). f_equal.
+  rewrite <- (IH vs Hnd' ltac:(simpl in Hlen; lia)).
+  apply map_ext_in. intros k Hk.
+  destruct (text_eqb n k) eqn:E; [|reflexivity].
+  apply text_eqb_eq in E. subst k. contradiction.
+Qed.
+
+Theorem csv_read_back : forall d hdr rows, delim_ok d = true ->
+  Forall (fun n => valid_body n = true) hdr -> NoDup hdr ->
+  Forall (fun rw : row => List.length rw = List.length hdr) rows ->
+  csv_read R nc isdec d None (csv_write d CRLF (hdr :: rows))
+  = Some (hdr, map (fun rw => combine hdr (map Some rw)) rows).
+Proof.
+  intros d hdr rows Hd Hv Hnd Hlen. unfold csv_read. rewrite (csv_round_trip_crlf d (hdr :: rows) Hd).
+  assert (Hn : map (normalize R nc isdec) hdr = hdr).
+  { clear Hnd Hlen. induction Hv as [|n ns Hn Hns IH]; [reflexivity|]. simpl. rewrite (normalize_valid_id n Hn), IH. reflexivity. }
+  rewrite Hn.
+  assert (Hf : filter (fun n => match n with 95 :: _ => false | _ => true end) hdr = hdr).
+  { clear Hn Hnd Hlen. induction Hv as [|n ns Hn Hns IH]; [reflexivity|]. simpl.
+    destruct n as [|ch s]; [discriminate|]. simpl in Hn. apply andb_prop in Hn. destruct Hn as [Ha _].
+    assert (Hne : ch <> 95) by (intros ->; discriminate).
+    assert (Hm : match ch :: s with 95 :: _ => false | _ => true end = true).
+    { destruct ch as [|p]; [reflexivity|]. repeat (destruct p as [p|p|]; try reflexivity). exfalso. apply Hne. reflexivity. }
+    rewrite Hm, IH. reflexivity. }
+  rewrite Hf. f_equal. f_equal. apply map_ext_in. intros rw Hrw.
+  rewrite Forall_forall in Hlen. apply zip_rows; [exact Hnd|apply Hlen; exact Hrw].
+Qed.
+
+End Normalize.
